@@ -232,6 +232,8 @@ struct Merged {
     machinery: Vec<String>,
     extra: BTreeMap<String, Value>,
     capped: Vec<String>,
+    /// worker seconds spent per space (sum over its chunks)
+    space_secs: BTreeMap<usize, f64>,
 }
 
 struct Job {
@@ -441,7 +443,13 @@ fn process_job(
         }
         return;
     }
-    match run_worker(def.prop, tier, &job, scratch, &tag, wall_cap) {
+    let t0 = Instant::now();
+    let rr = run_worker(def.prop, tier, &job, scratch, &tag, wall_cap);
+    {
+        let mut m = merged.lock().unwrap();
+        *m.space_secs.entry(job.space).or_insert(0.0) += t0.elapsed().as_secs_f64();
+    }
+    match rr {
         RunRes::Ok(v, dig) => {
             let mut m = merged.lock().unwrap();
             merge_ok(&mut m, job.space, &v, dig);
@@ -698,7 +706,15 @@ pub fn controller_main(def: &CheckDef, tier: Tier) -> i32 {
         "traces_validated_against_impl": m.transitions,
         "exhaustive": def.exhaustive && complete && m.capped.is_empty(),
         "declared_cases": total,
-        "spaces": space_info,
+        "spaces": space_info
+            .iter()
+            .map(|r| {
+                let mut r = r.clone();
+                let si = r["space"].as_u64().unwrap_or(0) as usize;
+                r["worker_seconds"] = json!((m.space_secs.get(&si).copied().unwrap_or(0.0) * 100.0).round() / 100.0);
+                r
+            })
+            .collect::<Vec<Value>>(),
         "outcome_histogram": m.hist,
         "bounds": def.bounds,
         "violations_total": m.violations_total,
